@@ -58,7 +58,7 @@ DoStore == /\ s.m = "sl" /\ s.op = "init"
                 LET r == StoreT(Pinned, s.bpp, s.order, s.buf, i, v) IN
                 s' = [s EXCEPT !.op = "store"] @@
                      [i |-> i, v |-> v,
-                      item |-> <<Limbs(i), v, IF r.ok THEN 1 ELSE 0, r.buf, LoadT(s.bpp, s.order, r.buf, i)>>]
+                      item |-> <<Limbs(i), v, IF r.ok THEN 1 ELSE 0, r.buf, LoadT(s.bpp, s.order, r.buf, i), 0>>]
 DoLoad  == /\ s.m = "sl" /\ s.op = "init"
            /\ \E i \in Indices(s.bpp, Len(s.buf)) :
                 s' = [s EXCEPT !.op = "load"] @@
